@@ -56,6 +56,22 @@ def _pairs(n):
             for j, c in enumerate(ps)]
 
 
+def _repeated(n, rng, count):
+    """the same OrderedPartition object is queried several times (earlier queries may leave traces in the object)"""
+    ps = [p for p in grids.partial(n) if p]
+    out = []
+    for _ in range(count):
+        P = rng.choice(ps)
+        E = sorted(x for g in P for x in g)
+        same = [c for c in ps if sorted(x for b in c for x in b) == E]
+        prev = [rng.choice(same) for _ in range(rng.randint(1, 2))]
+        if rng.random() < .5:
+            prev[0] = P                                      # a consistent query first
+        c = rng.choice(same) if rng.random() < .8 else rng.choice(ps)
+        out.append({"P": P, "c": c, "prev": prev, "naming": rng.choice(["ints", "letters"])})
+    return out
+
+
 def models(tier):
     ms = [Model("MC_Partition", "MC_Partition_uni5_3_2.cfg", "ParCons/ParFront design theorems, all datasets "
                 "(3 elements, <=2 rankings), every topological order, merge loop as a step machine; unifying p=1/2"),
@@ -77,6 +93,8 @@ def stages(tier, rng, only=None):
                                 SCHEMES + ac.grid_sample(rng, 6), False), _nt_part, partrun.init, aux=aux),
            Stage("consistent", "Trace_Part", partrun.run_consistent, lambda: _pairs(3 if tier == "quick" else 4),
                  _nt_cons, partrun.init, aux=aux)]
+    out.append(Stage("consistent_repeated", "Trace_Part", partrun.run_consistent,
+                     lambda: _repeated(4, rng, 3000 if tier == "quick" else 30000), _nt_cons, partrun.init, aux=aux))
     if tier == "quick":
         out.append(Stage("consistent4", "Trace_Part", partrun.run_consistent,
                          lambda: rng.sample(_pairs(4), 4000), _nt_cons, partrun.init, aux=aux))
